@@ -163,7 +163,9 @@ def run_property(b, prop, tier, seed, targeted, oracle_sub, oracle_ok, known_pre
     """returns (violations, known, coverage-dict)"""
     n_mut, n_rand = (1500, 200) if tier == "quick" else (40000, 4000)
     stream = list(T.stream(seed, n_mut, n_rand))
-    cases = stream + list(targeted)
+    from . import smallprogs as SP
+    small = list(SP.stream(seed, None))
+    cases = stream + list(targeted) + small
     if tier != "quick":
         # thorough: single-token mutants of the targeted texts as well
         rng = random.Random(seed + 7)
